@@ -303,7 +303,13 @@ impl<'a, D: DependencyProvider> Encoder<'a, D> {
             .or_default()
             .push((requirement, clause_id));
 
-        if conflict {
+        // The clause only conflicts with the current decisions if the parent is
+        // installed. For a parent that is still undecided (it is encoded ahead
+        // of time because its dependencies are cheaply available) the clause
+        // merely forbids installing it, which unit propagation notices as soon
+        // as the parent is decided because the parent literal is watched.
+        let parent_installed = self.state.decision_tracker.assigned_value(variable) == Some(true);
+        if conflict && parent_installed {
             self.conflicting_clauses.push(clause_id);
         } else if no_candidates {
             // Add assertions for unit clauses (i.e. those with no matching candidates)
@@ -334,6 +340,9 @@ impl<'a, D: DependencyProvider> Encoder<'a, D> {
         );
 
         let variable = self.state.variable_map.intern_solvable_or_root(solvable_id);
+        // See `on_requirement_candidates_available`: only a parent that is
+        // installed can make a new clause conflict with the current decisions.
+        let parent_installed = self.state.decision_tracker.assigned_value(variable) == Some(true);
         for &forbidden_candidate in candidates {
             let forbidden_candidate_var =
                 self.state.variable_map.intern_solvable(forbidden_candidate);
@@ -356,7 +365,7 @@ impl<'a, D: DependencyProvider> Encoder<'a, D> {
                 .start_watching(watched_literals, clause_id);
 
             // Mark conflicting clauses
-            if conflict {
+            if conflict && parent_installed {
                 self.conflicting_clauses.push(clause_id);
             }
         }
